@@ -4,12 +4,15 @@ meta.json files of /verif/seeded and /verif/benign (fields check_results / check
 import sys,json,re,os
 rows=[l.rstrip("\n") for l in open(sys.argv[1]) if l.strip()]
 mut=[]
+seen=set()
 for l in rows:
     m=re.match(r'(\w+):(\S+) (\S+) rc=(\d+) ?(.*)$', l)
     if not m: continue
     kind,name,cid,rc,rest=m.groups()
     if kind=='seeded':
-        p=f'/verif/seeded/{name}/meta.json'; d=json.load(open(p)); d['check_results']=f"{cid}:rc={rc}:{rest};"; json.dump(d,open(p,'w'),indent=1)
+        # several lines for one variant (its own check and a sibling check) are accumulated
+        p=f'/verif/seeded/{name}/meta.json'; d=json.load(open(p))
+        d['check_results']=(d['check_results'] if name in seen else '')+f"{cid}:rc={rc}:{rest};"; seen.add(name); json.dump(d,open(p,'w'),indent=1)
     elif kind=='benign':
         p=f'/verif/benign/{name}/meta.json'; d=json.load(open(p)); d['check_result']=f"rc={rc} {rest}"; json.dump(d,open(p,'w'),indent=1)
     elif kind=='mutant':
